@@ -91,10 +91,12 @@ device_done_cb(void *arg)
 	d->user = NULL;
 	nni_mtx_unlock(&device_mtx);
 	device_close(d);
+	// Queue the reap before the user can learn that the device is done:
+	// nng_fini only waits for work that has been queued.
+	nni_reap(&device_reap, d);
 	if (user != NULL) {
 		nni_aio_finish_error(user, err);
 	}
-	nni_reap(&device_reap, d);
 }
 
 static void
@@ -302,8 +304,8 @@ nni_device(nni_aio *aio, nni_sock *s1, nni_sock *s2)
 	}
 	if ((rv = nni_sock_device_hold(d->paths[0].src, d->paths[0].dst)) != 0) {
 		nni_mtx_unlock(&device_mtx);
-		nni_aio_finish_error(aio, rv);
 		nni_reap(&device_reap, d);
+		nni_aio_finish_error(aio, rv);
 		return;
 	}
 	d->owned = true;
